@@ -20,9 +20,17 @@ MUTANTS = [
  ('rep-filter-nonstrict', 'misc', 'cluster.rs', 'count > config.minimum_repetitions', 'count >= config.minimum_repetitions', 'fail', 'rep_filter.strict'),
  ('recreate-no-second-mark', 'dfa', 'dfa.rs', 'if self.final_state_indices.contains(&old_target_state.index()) {\n                    final_state_indices.insert(new_target_state.index());\n                }', '', 'fail', 'recreate'),
  ('recreate-edge-swapped', 'dfa', 'dfa.rs', 'graph.add_edge(*new_source_state, *new_target_state, grapheme.clone());', 'graph.add_edge(*new_target_state, *new_source_state, grapheme.clone());', 'fail', 'recreate'),
- ('insert-no-final', 'dfa', 'dfa.rs', 'self.final_state_indices.insert(current_state.index());\n    }', 'let _ = current_state.index();\n    }', 'fail', 'insert'),
+ ('insert-no-final', 'trie', 'dfa.rs', 'self.final_state_indices.insert(current_state.index());\n    }', 'let _ = current_state.index();\n    }', 'fail', 'insert'),
  ('cli-dropped-flag', 'cli', 'main.rs', 'if cli.is_non_word_converted {\n                    builder.with_conversion_of_non_words();\n                }', '', 'fail', 'cli.'),
  ('cli-crossed-flag', 'cli', 'main.rs', 'if cli.is_space_converted {\n                    builder.with_conversion_of_whitespace();', 'if cli.is_space_converted {\n                    builder.with_conversion_of_non_whitespace();', 'fail', 'cli.'),
+ ('elim-concat-swapped', 'elim', 'expression.rs', '&Self::concatenate(&a[(i, n)], &a[(n, j)], config),', '&Self::concatenate(&a[(n, j)], &a[(i, n)], config),', 'fail', 'elim.'),
+ ('elim-wrong-final-vector', 'elim', 'expression.rs', '&Self::concatenate(&a[(i, n)], &b[n], config), config);', '&Self::concatenate(&a[(i, n)], &b[i], config), config);', 'fail', 'elim.'),
+ ('elim-skips-row-zero', 'elim', 'expression.rs', 'for i in 0..n {\n                if a[(i, n)].is_some() {', 'for i in 1..n {\n                if a[(i, n)].is_some() {', 'fail', 'elim.'),
+ ('elim-result-from-last-state', 'elim', 'expression.rs', 'if !b.is_empty() && b[0].is_some() {\n            b[0].as_ref().unwrap().clone()', 'if !b.is_empty() && b[state_count - 1].is_some() {\n            b[state_count - 1].as_ref().unwrap().clone()', 'fail', 'elim.'),
+ ('elim-union-operands-swapped-benign', 'elim', 'expression.rs', 'b[i] =\n                        Self::union(&b[i], &Self::concatenate(&a[(i, n)], &b[n], config), config);', 'b[i] =\n                        Self::union(&Self::concatenate(&a[(i, n)], &b[n], config), &b[i], config);', 'pass', ''),
+ ('find-next-ignores-max', 'trie', 'dfa.rs', '} else if current_grapheme.maximum() == grapheme.maximum() {', '} else if current_grapheme.maximum() >= grapheme.maximum() {', 'fail', 'find_next_state.'),
+ ('add-new-state-edge-reversed', 'trie', 'dfa.rs', '.add_edge(current_state, next_state, edge_label.clone());', '.add_edge(next_state, current_state, edge_label.clone());', 'fail', 'add_new_state.'),
+ ('insert-marks-start', 'trie', 'dfa.rs', 'self.final_state_indices.insert(current_state.index());\n    }', 'self.final_state_indices.insert(self.initial_state.index());\n    }', 'fail', 'insert.'),
  ('wasm-wrong-field', 'wasm', 'wasm.rs', 'self.builder.config.is_start_anchor_disabled = true;\n        self.clone()', 'self.builder.config.is_end_anchor_disabled = true;\n        self.clone()', 'fail', 'wasm.withoutStartAnchor'),
 ]
 def run(repo, only=None, units=None):
